@@ -397,6 +397,39 @@ func closeConnectionShape() (found, removeFirst bool) {
 	return true, id < ic
 }
 
+// disposeAllShape: does (*ResourceManager).DisposeAll iterate over a COPY of rm.order (repository) or over the manager's own
+// backing array (order := rm.order ... rm.order = rm.order[:0])?
+func disposeAllShape() (found, copies bool) {
+	fset := token.NewFileSet()
+	f, err := parser.ParseFile(fset, filepath.Join(repoRoot(), "internal/core/dispose/manager.go"), nil, 0)
+	if err != nil {
+		return
+	}
+	fd := findMethod(f, "ResourceManager", "DisposeAll")
+	if fd == nil {
+		return
+	}
+	txt := strings.ReplaceAll(nodeText(fset, fd.Body), " ", "")
+	found = strings.Contains(txt, "rm.order")
+	aliased := strings.Contains(txt, "rm.order[:0]") || strings.Contains(txt, "order:=rm.order\n")
+	return found, strings.Contains(txt, "copy(order,rm.order)") && !aliased
+}
+
+// throttleWaitShape: does (*Bridge).waitForTokens wait with the bridge context (WaitN(b.Ctx(), …)) and never sleep?
+func throttleWaitShape() (found, cancellable bool) {
+	fset := token.NewFileSet()
+	f, err := parser.ParseFile(fset, filepath.Join(repoRoot(), "internal/protocol/session/tunnel/bridge_forward.go"), nil, 0)
+	if err != nil {
+		return
+	}
+	fd := findMethod(f, "Bridge", "waitForTokens")
+	if fd == nil {
+		return
+	}
+	txt := strings.ReplaceAll(nodeText(fset, fd.Body), " ", "")
+	return true, strings.Contains(txt, "WaitN(b.Ctx(),") && !strings.Contains(txt, "time.Sleep(") && !strings.Contains(txt, "ReserveN(")
+}
+
 func coqBool(b bool) string {
 	if b {
 		return "true"
@@ -446,6 +479,12 @@ func gen() {
 	cf, crf := closeConnectionShape()
 	fmt.Println("(* SessionManager.CloseConnection deletes the map entry before it closes the stream *)")
 	fmt.Printf("Definition CloseConnectionShapeFound : bool := %s.\nDefinition CloseConnectionRemovesFirst : bool := %s.\n", coqBool(cf), coqBool(crf))
+	daf, dac := disposeAllShape()
+	fmt.Println("(* ResourceManager.DisposeAll iterates over a copy of rm.order *)")
+	fmt.Printf("Definition DisposeAllShapeFound : bool := %s.\nDefinition DisposeAllCopiesOrder : bool := %s.\n", coqBool(daf), coqBool(dac))
+	twf, twc := throttleWaitShape()
+	fmt.Println("(* Bridge.waitForTokens waits with the bridge context *)")
+	fmt.Printf("Definition ThrottleWaitShapeFound : bool := %s.\nDefinition ThrottleWaitUsesContext : bool := %s.\n", coqBool(twf), coqBool(twc))
 	fmt.Printf("Definition BatchUpdateThreshold : N := %d%%N.\n", int64(constants.BatchUpdateThreshold))
 }
 
